@@ -1,4 +1,5 @@
 import Abmarl.Lemmas.BroadcastDeliv
+import Abmarl.Lemmas.ExamplesJudge
 /-!
 # The first loop of `BroadcastSim.step` is `BC.recvAfter`
 
@@ -199,6 +200,32 @@ theorem step_recv {cfg : Cfg} {w0 : World} {s s' : St} (hG : Good cfg w0 s) (hH 
       · simp only [Except.ok.injEq] at h
         subst h
         exact ⟨rfl, rfl⟩
+
+/-- **the `step` clause of the judge holds on the model's own run** -/
+theorem judge1_step {cfg : Cfg} {w0 : World} (hcfg : CfgOK w0) {s : St} (hG : Good cfg w0 s)
+    (hH : cfgHypb cfg s.w = true) (acts : List (Aid × Act)) (t : Tape) (hA : ActsOK w0 acts) (res0 : BRes) :
+    judge1 cfg w0 (see res0 s) (.step acts t) (runOp cfg s (.step acts t)).1 = true := by
+  have hG' : Good cfg w0 { s with tape := t } := ⟨hG.x, hG.msgs, hG.recv, hG.led⟩
+  simp only [runOp]
+  cases h : step cfg { s with tape := t } acts with
+  | ok s' =>
+    have hG2 := step_good hcfg hA hG' h
+    obtain ⟨rv, hrv, hrecv, hmsgs⟩ := step_recv hG' hH h
+    obtain ⟨r, hr, hk⟩ := hG.led
+    obtain ⟨r', hr', hk'⟩ := hG2.led
+    have hn : s'.w.n = s.w.n := by rw [sframe_n hG2.x.frame, sframe_n hG.x.frame]
+    have hal : aliveb s'.w = true := by
+      simp only [aliveb, allAgents, List.all_eq_true, List.mem_range]
+      exact fun a ha => (hG2.x.alive a ha).2.2
+    simp only at hrv hrecv hmsgs
+    simp [judge1, see, hG2.x.inv, Ex.frameb_of_sframe hG2.x.frame, hal, hmsgs, hrv, hrecv, hr, hr', hk, hk', hn]
+  | error e =>
+    simp only [judge1, see]
+    by_contra hc
+    have hm : stepMustNotRaise cfg ⟨res0, s.w, s.msgs, s.recv, s.rewards⟩ acts = true := by simpa using hc
+    simp only [stepMustNotRaise, Bool.and_eq_true, List.all_eq_true] at hm
+    obtain ⟨s', hs'⟩ := step_returns hcfg hG' hH hm.2
+    rw [h] at hs'; cases hs'
 
 end BC
 end Abmarl
